@@ -14,14 +14,14 @@ import (
 
 // ieTables are the constant tables lifted from pkg/entities on every run.
 type ieTables struct {
-	TypeNames   map[int64]string   // IEDataType value -> constant name
-	TypeVals    map[string]int64   // constant name -> value
-	Length      map[string]int64   // InfoElementLength literal: type name -> length (65535 = variable)
-	Constructor map[string]string  // decoder switch: type name -> NewXInfoElement constructor
-	Concrete    map[string]string  // type name -> concrete element struct name (XInfoElement)
+	TypeNames   map[int64]string           // IEDataType value -> constant name
+	TypeVals    map[string]int64           // constant name -> value
+	Length      map[string]int64           // InfoElementLength literal: type name -> length (65535 = variable)
+	Constructor map[string]string          // decoder switch: type name -> NewXInfoElement constructor
+	Concrete    map[string]string          // type name -> concrete element struct name (XInfoElement)
 	Declared    map[string]map[string]bool // concrete struct -> methods it declares itself (not promoted)
-	Supported   []string           // type names the decoder builds an element for
-	Unsupported []string           // type names for which the decoder returns an error
+	Supported   []string                   // type names the decoder builds an element for
+	Unsupported []string                   // type names for which the decoder returns an error
 	Problems    []string
 }
 
